@@ -79,6 +79,10 @@ ReplayRecs(T, ev) ==
             [i \in 1..Len(ev.recs) |->
                IF ev.recs[i].t = "R" THEN [ev.recs[i] EXCEPT !.s1 = MinOf(sps), !.s2 = MaxOf(sps)] ELSE ev.recs[i]]
 
+TrackedOps == {"aspirate", "dispense", "transfer", "distribute", "evo_aspirate", "evo_dispense"}
+\* raw pipetting records appended through the low level emitters are not tracked by any labware
+Untracked(ev) == ev.op = "emit" /\ \E i \in 1..Len(ev.recs) : ev.recs[i].t \in {"A", "D", "R"}
+
 PipRecs(recs) == SelectSeq(recs, LAMBDA r : r.t \in {"A", "D"})
 
 Common(tr, T, ev) ==
@@ -102,7 +106,7 @@ Common(tr, T, ev) ==
     Cl("C01.appendonly", ev.op # "enter", ev.wprefix /\ ev.wlen = Len(wl) + Len(ev.recs)),
     Cl("C03.stepmax", F.records,
        \A i \in 1..Len(ev.recs) : ev.recs[i].t \in {"A", "D"} => ev.recs[i].cents <= T.wlmaxc),
-    Cl("C03.replay", F.robot /\ live,
+    Cl("C03.replay", F.robot /\ live /\ ev.op \in TrackedOps,
        Run(T, vol, TrackedComp(tr), ReplayRecs(T, ev)).err = ""),
     Cl("C11.prefix", live /\ ev.out = "ok",
        \A k \in 1..NLw(tr) : post.hsame[k] >= hn[k] /\ post.hn[k] >= hn[k]),
@@ -511,7 +515,7 @@ Step ==
      /\ l' = l + 1 /\ tid' = tid
      /\ vol' = ev.post.vol /\ comp' = CompOf(ev.post.comp) /\ hn' = ev.post.hn
      /\ wl' = IF ev.op = "enter" THEN <<>> ELSE wl \o ev.recs
-     /\ live' = (live /\ ev.out = "ok")
+     /\ live' = (live /\ ev.out = "ok" /\ ~Untracked(ev))
      /\ cok' = (cok /\ ev.cs)
 
 Next == StartTrace \/ Step
